@@ -44,6 +44,24 @@ def cases(ctx):
         yield Case(f'schnorr_sign {hx(msg)} {hx(d.to_bytes(32, "big"))} {hx(aux)}', 'ms', nontrivial=True, tag='sign',
                    spec=lambda ans, msg=msg, d=d, aux=aux: (f's:bip340_sign {hx(msg)} {hx(d.to_bytes(32, "big"))} {hx(aux)}', ans))
         sigs.append((msg, d, aux))
+    # leading zero bytes in every byte string that enters the nonce: message, aux, and t = bytes(d') xor H_aux(aux)
+    from bitcoinutils.schnorr import full_pubkey_gen
+    def tag(t, m):
+        th = hashlib.sha256(t.encode()).digest(); return hashlib.sha256(th + th + m).digest()
+    for d in secrets[:ctx.n(8, 200)]:
+        pk = full_pubkey_gen(d.to_bytes(32, 'big'))
+        de = d if pk[63] % 2 == 0 else N - d
+        want = rng.choice([1, 1, 2])
+        aux = None
+        for _ in range(300000):
+            cand = rng.getrandbits(256).to_bytes(32, 'big')
+            t = bytes(a ^ b for a, b in zip(de.to_bytes(32, 'big'), tag('BIP0340/aux', cand)))
+            if t[:want] == bytes(want): aux = cand; break
+        for msg, ax in [(G.rbytes(rng, 32), aux), (bytes(2) + G.rbytes(rng, 30), G.rbytes(rng, 32)), (G.rbytes(rng, 32), bytes(3) + G.rbytes(rng, 29))]:
+            if ax is None: continue
+            ctx.count('sign-leading-zero')
+            yield Case(f'schnorr_sign {hx(msg)} {hx(d.to_bytes(32, "big"))} {hx(ax)}', 'ms', nontrivial=True, tag='sign-leading-zero',
+                       spec=lambda ans, msg=msg, d=d, ax=ax: (f's:bip340_sign {hx(msg)} {hx(d.to_bytes(32, "big"))} {hx(ax)}', ans))
     for d in (0, N, N + 1, 2 ** 256 - 1):
         yield Case(f'schnorr_sign {hx(bytes(32))} {hx(d.to_bytes(32, "big"))} {hx(bytes(32))}', 'ms', nontrivial=True, tag='sign-badkey',
                    spec=lambda ans, d=d: (f's:bip340_sign {hx(bytes(32))} {hx(d.to_bytes(32, "big"))} {hx(bytes(32))}', ans))
